@@ -334,7 +334,8 @@ func (lxr *Lexer) spanComment(start int) Item {
 			lxr.si = len(lxr.src)
 			return it(tok.Error, start, "missing end of comment")
 		}
-		if strings.HasSuffix(lxr.src[:lxr.si], "*/") {
+		// start+2 so the * of the opening /* is not used for the closing */
+		if strings.HasSuffix(lxr.src[start+2:lxr.si], "*/") {
 			return it(tok.Comment, start, lxr.src[start:lxr.si])
 		}
 	}
